@@ -75,6 +75,22 @@ class Invalid(Exception):
     pass
 
 
+def c_escape(text):
+    """spell the characters of one string-literal piece; control characters as escapes: octal with three digits inside
+    the piece (cannot absorb a following digit), hexadecimal when it is the LAST character of the piece (a hex escape
+    has no length limit, so it would absorb a following hex digit if adjacent pieces were pasted before escape processing)"""
+    out = ""
+    for i, ch in enumerate(text):
+        o = ord(ch)
+        if ch in '"\\':
+            out += "\\" + ch
+        elif o < 32 or o == 127:
+            out += ("\\x%x" % o) if i == len(text) - 1 else ("\\%03o" % o)
+        else:
+            out += ch
+    return out
+
+
 def str_prefix(init):
     return init[2] if len(init) > 2 else ""
 
@@ -318,7 +334,8 @@ def ctext(init):
     if init[0] == "expr":
         return str(init[1])
     if init[0] == "str":
-        return '%s"%s"' % (str_prefix(init), init[1])
+        pieces = init[3] if len(init) > 3 else [(str_prefix(init), init[1])]
+        return " ".join('%s"%s"' % (p, c_escape(t)) for p, t in pieces)
     parts = []
     for desig, sub_ in init[1]:
         d = "".join((".%s" % x[1]) if x[0] == "m" else ("[%d]" % x[1]) if x[0] == "i" else ("[%d ... %d]" % (x[1], x[2])) for x in desig)
@@ -415,13 +432,22 @@ class Gen:
         r = self.rnd
         p = r.choice(self.prefixes(t.elem))
         n = t.n if t.n is not None else 4
-        alpha = ["a", "b", "x", "y", "z", "q"] + (["\u00e9", "\u20ac", "\U0001f600"] if p else [])
+        alpha = ["a", "b", "x", "y", "z", "q", "1", "f", "\x01", "\n", "\\", "\""] + (["\u00e9", "\u20ac", "\U0001f600"] if p else [])
         for _ in range(20):
             text = "".join(r.choice(alpha) for _ in range(r.randrange(0, n + 1)))
             if len(str_units(text, p)) <= n:
                 break
         else:
             text = ""
+        if len(text) >= 2 and r.random() < 0.4:
+            # adjacent string literals (6.4.5p5): concatenated in translation phase 6, AFTER escape sequences were converted;
+            # a narrow piece next to a prefixed one takes the prefix
+            cuts = sorted(set(r.randrange(1, len(text)) for _ in range(r.choice([1, 1, 2]))))
+            parts = [text[a:b] for a, b in zip([0] + cuts, cuts + [len(text)])]
+            pref = [p if r.random() < 0.6 else "" for _ in parts]
+            if p and p not in pref:
+                pref[r.randrange(len(pref))] = p
+            return ("str", text, p, list(zip(pref, parts)))
         return ("str", text, p)
 
     def first_sub(self, t):
